@@ -73,7 +73,7 @@ func QUICID2Spec(id QUICID) (QUICSpec, error) {
 				InitPacketNumber:       1, // Chrome is special that it starts with 1 not 0
 				ClientTokenLength:      0,
 				FrameBuilder: &QUICRandomFrames{ // Chrome randomly inserts padding frames
-					MinPING:    0,
+					MinPING:    1, // the recorded fingerprint's frame-type set includes PING: zero PING frames is a different fingerprint
 					MaxPING:    10,
 					MinCRYPTO:  1,
 					MaxCRYPTO:  10,
@@ -190,7 +190,7 @@ func QUICID2Spec(id QUICID) (QUICSpec, error) {
 				InitPacketNumber:       1, // Chrome is special that it starts with 1 not 0
 				ClientTokenLength:      0,
 				FrameBuilder: &QUICRandomFrames{ // Chrome randomly inserts padding frames
-					MinPING:    0,
+					MinPING:    1, // the recorded fingerprint's frame-type set includes PING: zero PING frames is a different fingerprint
 					MaxPING:    10,
 					MinCRYPTO:  1,
 					MaxCRYPTO:  10,
